@@ -167,7 +167,7 @@ theorem add_node_spec (s s' : Store Ω μ) (hs : SInv s) (op : Ω) (parent : Opt
 
 /-- `delete_node` is applied to leaves only (the statement's quantifier). -/
 def LeafOK (s : Store Ω μ) : Op Ω μ → Prop
-  | .deleteNode n => ∀ d, getNode s n = .ok d → d.children = []
+  | .deleteNode n => n ≠ s.root ∧ ∀ d, getNode s n = .ok d → d.children = []
   | _ => True
 
 /-- States reachable from a fresh HUGR by well-formed calls that return normally. -/
@@ -191,25 +191,46 @@ theorem step_hier (s s' : Store Ω μ) (hs : SInv s) (hh : HierInv s) (o : Op Ω
     simp only [step] at h
     cases h0 : getNode s n with
     | error e => simp [deleteNode, h0] at h
-    | ok d0 => exact hier_deleteNode s s' hh hs.links n d0 h0 (hleaf d0 h0) h
+    | ok d0 => exact hier_deleteNode s s' hh hs.links n d0 h0 (hleaf.2 d0 h0) h
   | insertHugr b p =>
     simp only [step] at h
     cases ha : insertHugr s b p with
     | error e => simp [ha, Except.map] at h
     | ok r => simp [ha, Except.map] at h; subst h; exact hier_insertHugr s r.1 b hh hs.free p r.2 ha
 
+theorem step_root (s s' : Store Ω μ) (hs : SInv s) (hr : RootInv s) (o : Op Ω μ) (hleaf : LeafOK s o)
+    (h : step s o = .ok s') : RootInv s' := by
+  cases o with
+  | addNode op p k m =>
+    simp only [step] at h
+    cases ha : addNode s op p k m with
+    | error e => simp [ha, Except.map] at h
+    | ok r => simp [ha, Except.map] at h; subst h; exact root_addNodeRaw s r.1 hr hs.free op _ k m r.2 ha
+  | addLink a b => exact root_addLink s s' hr a b h
+  | addOrderLink a b => exact root_addOrderLink s s' hr a b h
+  | deleteLink a b => exact root_deleteLink s s' hr a b h
+  | deleteNode n => exact root_deleteNode s s' hr hs n hleaf.1 h
+  | insertHugr b p =>
+    simp only [step] at h
+    cases ha : insertHugr s b p with
+    | error e => simp [ha, Except.map] at h
+    | ok r => simp [ha, Except.map] at h; subst h; exact root_insertHugr s r.1 b hr hs.free p r.2 ha
+
 /-- **In every reachable state the children lists and parent pointers describe one forest**:
-    `c` is listed (once) among the children of `p` exactly when `c` is live with parent `p`;
-    together with the store invariant of `reachable_inv`. -/
-theorem reach_inv (rootOp : Ω) (m : μ) (s : Store Ω μ) (h : Reach rootOp m s) : SInv s ∧ HierInv s := by
+    `c` is listed (once) among the children of `p` exactly when `c` is live with parent `p`; the root
+    is live and is the only node without a parent; together with the store invariant of
+    `reachable_inv`. -/
+theorem reach_inv (rootOp : Ω) (m : μ) (s : Store Ω μ) (h : Reach rootOp m s) :
+    SInv s ∧ HierInv s ∧ RootInv s := by
   induction h with
-  | init => exact ⟨sinv_init rootOp m, hier_init rootOp m⟩
-  | step o _ hw hl he ih => exact ⟨step_inv _ _ ih.1 o hw he, step_hier _ _ ih.1 ih.2 o hl he⟩
+  | init => exact ⟨sinv_init rootOp m, hier_init rootOp m, root_init rootOp m⟩
+  | step o _ hw hl he ih =>
+    exact ⟨step_inv _ _ ih.1 o hw he, step_hier _ _ ih.1 ih.2.1 o hl he, step_root _ _ ih.1 ih.2.2 o hl he⟩
 
 theorem children_iff_parent (rootOp : Ω) (m : μ) (s : Store Ω μ) (h : Reach rootOp m s) (p c : Nat)
     (dp : NodeData Ω μ) (hp : getNode s p = .ok dp) :
     c ∈ childIdxs dp ↔ ∃ dc, getNode s c = .ok dc ∧ dc.parent = some p := by
-  obtain ⟨_, hh⟩ := reach_inv rootOp m s h
+  obtain ⟨_, hh, _⟩ := reach_inv rootOp m s h
   constructor
   · exact hh.childParent p dp c hp
   · rintro ⟨dc, hc, hpar⟩
@@ -218,7 +239,7 @@ theorem children_iff_parent (rootOp : Ω) (m : μ) (s : Store Ω μ) (h : Reach 
 
 theorem children_nodup (rootOp : Ω) (m : μ) (s : Store Ω μ) (h : Reach rootOp m s) (p : Nat)
     (dp : NodeData Ω μ) (hp : getNode s p = .ok dp) : (childIdxs dp).Nodup :=
-  (reach_inv rootOp m s h).2.nodup p dp hp
+  (reach_inv rootOp m s h).2.1.nodup p dp hp
 
 /-- `add_node` appends the new node at the END of its parent's ordered children and changes no
     other children list; `delete_node` removes the node from its parent's list and from no other. -/
